@@ -755,10 +755,23 @@ class _GenerateRenderMethod:
 
         self.printer.writeline("def %s(%s):" % (name, ",".join(args)))
 
-        # form "arg1, arg2, arg3=arg3, arg4=arg4", etc.
-        pass_args = [
-            "%s=%s" % ((a.split("=")[0],) * 2) if "=" in a else a for a in args
-        ]
+        # form "arg1, arg2, *args, arg4=arg4, **kw": arguments that can be
+        # given by position are passed by position, keyword-only ones by
+        # keyword
+        pass_args = []
+        keyword_only = False
+        for a in args:
+            argname = a.split("=")[0]
+            if a == "/":
+                continue
+            elif a.startswith("*"):
+                keyword_only = True
+                if a != "*":
+                    pass_args.append(a)
+            elif keyword_only:
+                pass_args.append("%s=%s" % (argname, argname))
+            else:
+                pass_args.append(argname)
 
         self.write_variable_declares(
             identifiers,
